@@ -36,6 +36,7 @@ import oracle
 from ser import Ids, Ser, Unsupported, cst, rat, ser, deser, env_text, store_text, bits_to_float
 
 LEAN_MODULE = "Optyx.Props.C01"
+EXTRA_MODULES = ["Optyx.Props.PinsC01"]   # transcription anchors (harness/source_pins.py)
 THEOREMS = [
     "Optyx.Props.C01.evaluate_eq_denote",
     "Optyx.Props.C01.compile_total",
@@ -48,6 +49,7 @@ THEOREMS = [
     "Optyx.Props.C01.dictFn_sound",
     "Optyx.Props.C01.compiledValue_sound",
     "Optyx.Props.C01.compile_sound_real",
+    "Optyx.Props.PinsC01.anchors",
 ]
 ASSUMPTIONS = [
     "scalar constants only; ElementwisePower / ElementwiseUnary (array-valued nodes) are outside the model",
